@@ -4,7 +4,7 @@ import OpusProofs.SilkCoreBasic
   concerns `silk_decode_core` and the output-buffer update (property C03, slice SilkCore).
 -/
 namespace Opus.SilkCoreProofs
-open Opus Opus.SilkParams Opus.SilkCore Opus.Gen
+open Opus Opus.SilkParams Opus.SilkCore Opus.Gen Opus.Frozen
 
 /-- The configurations `silk_decoder_set_fs` produces. -/
 def CfgOk (fs nb : Nat) : Prop := (fs = 8 ∨ fs = 12 ∨ fs = 16) ∧ (nb = 2 ∨ nb = 4)
